@@ -583,7 +583,7 @@ def run(replay=None):
                                 expect_actions=['Iter', 'Exit']))
     # (G) terminal behaviours
     if replay:
-        terms = [replay['case']['term_full']]
+        terms = [replay['case']['term_full']] if 'term_full' in replay['case'] else []
     else:
         rc, out = common.run_tlc('ServiceFailoverGen', 'ServiceFailoverGen_thorough.cfg' if thorough else 'ServiceFailoverGen.cfg',
                                  workers=1, timeout=3000)
@@ -613,6 +613,62 @@ def run(replay=None):
                 b['method'], b['problems'][0].split(':')[0], b['network'], b['method'], json.dumps(b['term'], sort_keys=True),
                 '; '.join(b['problems'])),
                          {'term_full': full, 'method': b['method'], 'network': b['network'], 'obs': b['obs']})
+    # (G) the same terminal behaviours one level lower: real client classes over a scripted HTTP layer (spec/Transport.tla)
+    from harness import c20http
+    if not replay or 'http' in replay['case']:
+        real = common.tlc_eval('TransportEval', [{'k': 'realizations'}])[0]
+        if not (real['ok'] and real['raise'] and real['emptyish'] and real['malformed']):
+            raise common.MachineryError('Transport.tla: a response kind has no realization: %r' % {k: len(v) for k, v in real.items()})
+        if replay:
+            rcase = replay['case']['http']
+            hterms = common.tlc_printed(common.run_tlc('ServiceFailoverGen', 'ServiceFailoverGen.cfg', workers=1, timeout=3000)[1], 'TERM')
+        else:
+            hterms = terms
+        hsel = [t for t in hterms if set(t['resp'].values()) <= {'ok', 'raise'}]
+        hindex = {c20http.term_key(t): t for t in hsel}
+        hjobs = []
+        if replay:
+            part = [hindex[k] for k in rcase['slice']]
+            hjobs = [(rcase['network'], rcase['client'], part, hindex, real, rcase['seed'], rcase['mode'])]
+        else:
+            nch = 8
+            for ci, client in enumerate(sorted(c20http.CLIENTS)):
+                for mode in ('exact', 'emptyish', 'malformed'):
+                    s2 = [t for t in hsel if mode == 'exact' or t['me'] == max(x['me'] for x in hsel)]
+                    if not thorough:
+                        s2 = s2[(ci + common.seed()) % 2::2]
+                    for c in range(nch):
+                        part = s2[c::nch]
+                        if part:
+                            hjobs.append(('bitcoin', client, part, hindex if mode == 'malformed' else {}, real,
+                                          common.seed() * 1000 + 10 * c + ci, mode))
+        hres = common.pmap(c20http.replay_http, hjobs, config_ini=c20http.NOCACHE_INI)
+        nh = 0
+        for job, r in zip(hjobs, hres):
+            if r.get('setup_error'):
+                raise common.MachineryError('transport replay: ' + r['setup_error'])
+            ck.count(r['n'])
+            nh += r['n']
+            ck.traces += len(job[2])
+            for t in job[2]:
+                for m in c20http.METHODS:
+                    ck.distinct.add(('http', job[1], job[6], tuple(sorted(t['resp'].values())), t['outcome'], m))
+            for b in r['bad']:
+                key = b['dev']
+                x = b['taken_for_answer']
+                if key is None and x and x['body'] in ('empty', 'null'):
+                    key = 'delivered-empty-response-taken-as-answer'
+                elif key is None and b['method'] == 'blockcount' and b['obs']['kind'].startswith('exception:') and b['mode'] == 'malformed':
+                    key = 'blockcount-non-number-aborts-failover'
+                ck.violation(key, 'clause http-%s-%s; %s client, %s with %s; exchanges %s: %s' % (
+                    b['method'], b['problems'][0].split(':')[0], b['client'], b['method'], json.dumps(b['term'], sort_keys=True),
+                    json.dumps(b['exchanges'], sort_keys=True), '; '.join(b['problems'])),
+                    {'http': {'network': b['network'], 'client': b['client'], 'mode': b['mode'], 'seed': job[5], 'term': b['term'],
+                              'slice': [c20http.term_key(t) for t in job[2]]}, 'method': b['method'], 'obs': b['obs']})
+        ck.notes['http_transport_queries'] = nh
+        ck.notes['http_exchange_realizations'] = {k: len(v) for k, v in real.items()}
+        if not replay and nh == 0:
+            raise common.MachineryError('transport replay performed no query')
     # (V) traces with tied priorities against the classic trace specification
     if not replay:
         import tempfile
